@@ -239,8 +239,9 @@ pub struct Divergence {
 pub struct Dirs {
     pub live: PathBuf,
     pub fresh: PathBuf,
-    /// what the `fresh` directory holds (rewritten only when that changes)
+    /// what the two directories hold (only differences are written)
     fresh_holds: std::cell::RefCell<Option<(String, BTreeMap<usize, String>)>>,
+    live_holds: std::cell::RefCell<Option<(String, BTreeMap<usize, String>)>>,
 }
 
 impl Dirs {
@@ -249,7 +250,7 @@ impl Dirs {
         let _ = std::fs::remove_dir_all(&base);
         std::fs::create_dir_all(&base).expect("mkdir");
         let base = base.canonicalize().expect("canon");
-        Dirs { live: base.join("live"), fresh: base.join("fresh"), fresh_holds: std::cell::RefCell::new(None) }
+        Dirs { live: base.join("live"), fresh: base.join("fresh"), fresh_holds: std::cell::RefCell::new(None), live_holds: std::cell::RefCell::new(None) }
     }
 }
 
@@ -261,10 +262,40 @@ impl Drop for Dirs {
     }
 }
 
-fn reset_dir(dir: &Path, schema: &str, files: &BTreeMap<usize, String>) {
-    let _ = std::fs::remove_dir_all(dir);
-    let list: Vec<(String, String)> = files.iter().map(|(f, t)| (FILES[*f].to_string(), t.clone())).collect();
-    write_project(dir, schema, &list).expect("write project");
+/// Make `dir` hold exactly `schema` + `files`, writing only what differs from `holds`.
+fn sync_dir(dir: &Path, holds: &std::cell::RefCell<Option<(String, BTreeMap<usize, String>)>>, schema: &str, files: &BTreeMap<usize, String>) {
+    let mut h = holds.borrow_mut();
+    match h.as_mut() {
+        None => {
+            let _ = std::fs::remove_dir_all(dir);
+            let list: Vec<(String, String)> = files.iter().map(|(f, t)| (FILES[*f].to_string(), t.clone())).collect();
+            write_project(dir, schema, &list).expect("write project");
+            *h = Some((schema.to_string(), files.clone()));
+        }
+        Some((hs, hf)) => {
+            if hs != schema {
+                std::fs::write(dir.join("schema.graphql"), schema).expect("write schema");
+                *hs = schema.to_string();
+            }
+            for f in 0..FILES.len() {
+                match (hf.get(&f), files.get(&f)) {
+                    (Some(a), Some(b)) if a == b => {}
+                    (_, Some(b)) => {
+                        let p = dir.join(FILES[f]);
+                        if let Some(d) = p.parent() {
+                            std::fs::create_dir_all(d).expect("mkdir");
+                        }
+                        std::fs::write(p, b).expect("write file");
+                    }
+                    (Some(_), None) => {
+                        let _ = std::fs::remove_file(dir.join(FILES[f]));
+                    }
+                    (None, None) => {}
+                }
+            }
+            *hf = files.clone();
+        }
+    }
 }
 
 /// cursor positions inside back-tick literals: starts / middles of identifiers
@@ -313,12 +344,7 @@ fn answers(s: &mut Server, rel: &str, positions: &[(u32, u32)]) -> Vec<(String, 
 
 fn fresh_servers(dirs: &Dirs, schema: &str, m: &Model) -> Result<Vec<(&'static str, Server)>, String> {
     // (1) materialised: the effective contents are what is on disk
-    let eff = m.effective();
-    let key = (schema.to_string(), eff);
-    if dirs.fresh_holds.borrow().as_ref() != Some(&key) {
-        reset_dir(&dirs.fresh, schema, &key.1);
-        *dirs.fresh_holds.borrow_mut() = Some(key);
-    }
+    sync_dir(&dirs.fresh, &dirs.fresh_holds, schema, &m.effective());
     let a = Server::start(&dirs.fresh)?;
     // (2) reopened: the real disk, then the editor re-sends its open buffers
     let mut b = Server::start(&dirs.live)?;
@@ -355,7 +381,7 @@ fn baseline_is_deterministic(dirs: &Dirs, files: &[usize], eff: &BTreeMap<usize,
 /// Runs the history on a long-lived server; stops at the first divergence.
 /// Err = the harness could not do its job (never a verdict).
 pub fn run_history(dirs: &Dirs, h: &History, seed_for_positions: u64, stats: &mut BTreeMap<String, u64>) -> Result<Option<Divergence>, String> {
-    reset_dir(&dirs.live, &h.schema, &h.initial);
+    sync_dir(&dirs.live, &dirs.live_holds, &h.schema, &h.initial);
     let mut live = Server::start(&dirs.live)?;
     let mut m = Model { disk: h.initial.clone(), open: BTreeMap::new() };
     let mut versions: BTreeMap<usize, i32> = BTreeMap::new();
@@ -411,6 +437,9 @@ pub fn run_history(dirs: &Dirs, h: &History, seed_for_positions: u64, stats: &mu
                 let kind = if existed { DiskEventKind::Modify } else { DiskEventKind::Create };
                 live_failure = live.disk_events(&[(kind, p)]).err();
                 m.disk.insert(*f, text.clone());
+                if let Some((_, hf)) = dirs.live_holds.borrow_mut().as_mut() {
+                    hf.insert(*f, text.clone());
+                }
             }
             Op::DiskDelete { f } => {
                 if !m.disk.contains_key(f) {
@@ -425,6 +454,9 @@ pub fn run_history(dirs: &Dirs, h: &History, seed_for_positions: u64, stats: &mu
                 }
                 live_failure = live.disk_events(&[(DiskEventKind::Remove, p)]).err();
                 m.disk.remove(f);
+                if let Some((_, hf)) = dirs.live_holds.borrow_mut().as_mut() {
+                    hf.remove(f);
+                }
             }
             Op::Gc => {
                 bump("gcs");
